@@ -139,8 +139,21 @@ def run(ctx):
     if ok:
         r = ag[0][2]
         v = {n: Tn.operand(o) for n, o in zip(r["fields"], r["ops"])}
-        ok = v["events"] == ("param", 2, pn.local_name(2)) and const_of(v["revents"]) == 0 and v["fd"][0] == "call" and v["fd"][1] == "std::option::Option::<T>::unwrap_or" and const_of(v["fd"][2][1]) == -1 \
-            and v["fd"][2][0][0] == "call" and v["fd"][2][0][2][0] == ("param", 1, pn.local_name(1)) and v["fd"][2][0][2][1][0] == "fnitem" and "as_raw_fd" in v["fd"][2][0][2][1][1]
+        filep = ("param", 1, pn.local_name(1))
+        fd = v["fd"]
+        form_a = fd[0] == "call" and fd[1] == "std::option::Option::<T>::unwrap_or" and const_of(fd[2][1]) == -1 \
+            and fd[2][0][0] == "call" and fd[2][0][2][0] == filep and fd[2][0][2][1][0] == "fnitem" and "as_raw_fd" in fd[2][0][2][1][1]
+        # or spelled out: match file { Some(f) => f.as_raw_fd(), None => -1 } (also map_or(-1, ..))
+        kinds = set()
+        for a_ in M.alts(fd):
+            if const_of(a_) == -1:
+                kinds.add("neg1")
+            elif a_[0] == "call" and "as_raw_fd" in a_[1] and M.peel(a_[2][0]) == ("field", ("downcast", filep, "Some"), "0"):
+                kinds.add("rawfd")
+            else:
+                kinds.add("?")
+        form_c = fd[0] == "call" and fd[1] in ("std::option::Option::<T>::map_or",) and const_of(fd[2][1]) == -1 and fd[2][0] == filep and fd[2][2][0] == "fnitem" and "as_raw_fd" in fd[2][2][1]
+        ok = v["events"] == ("param", 2, pn.local_name(2)) and const_of(v["revents"]) == 0 and (form_a or form_c or kinds == {"neg1", "rawfd"})
     ctx.ob("R01.2", "PollFd::new", ok, pn.loc(0), "PollFd::new(file, events) = pollfd{fd: file's fd or -1, events, revents: 0}")
     pt = prog.one("posix::PollFd::<'_>::test")
     r0 = M.noref(M.Terms(pt).local(0))
@@ -309,6 +322,28 @@ def run(ctx):
                 oks = [1 for bb2 in ri.reachable(s) for st in ri.blocks[bb2]["stmts"] if st["k"] == "assign" and st["p"]["l"] == 0 and st["r"].get("variant") == "Ok"]
                 if errs and not oks:
                     kind = "error returned"
+        if kind is None:
+            # decided by evaluation instead of by the shape of the guard: with no size limit and any one stream still present, this exit
+            # cannot be taken (so it is taken only when the limit is reached or no stream is left), however the condition is spelled
+            def stream_of2(t):
+                t = M.noref(M.strip(t))
+                if t[0] == "field" and M.peel(t[1]) == M.peel(E.selfp) and t[2] in ("stdin", "stdout", "stderr"):
+                    return t[2]
+                return None
+            lim_p = ("param", E.params.get("size_limit"), "size_limit")
+            blocked = 0
+            for nm in ("stdin", "stdout", "stderr"):
+                def af(t, nm=nm):
+                    if stream_of2(t) == nm:
+                        return 1
+                    if M.noref(t) == lim_p:
+                        return 0
+                    return None
+                ex_ = M.Explore(ri, start=min(E.loop), assume_fn=af, tries="ok")
+                if (b, s) not in ex_.edges:
+                    blocked += 1
+            if blocked == 3:
+                kind = "limit reached or no stream left (evaluated)"
         seen_kind[kind] = seen_kind.get(kind, 0) + 1
         ctx.ob("R01.5", "loop-exit:%s#%d" % (kind or "UNEXPLAINED", seen_kind[kind]), kind is not None, ri.loc(b), "loop exit edge bb%d->bb%d: %s (the only successful exits are 'limit reached' and 'no stream left')" % (b, s, kind or "neither a limit test, nor the all-None test, nor an error"))
     ctx.floor("R01.5", "loop exit edges", len(exits), 3)
